@@ -1232,3 +1232,4 @@ K("_twin_surrogates_s", "timeseries", props=("C15", "C20"), lists3=("twins",),
 # Python-region contracts whose region runs on a bare instance: also evaluated at run time (R layer)
 for _nm in ("ClimateNetwork._calculate_threshold_adjacency",):
     REG[_nm][0].contract.rtc_py = True
+from contracts import kernels2  # noqa: E402,F401
